@@ -16,13 +16,16 @@ Property theorems only (helper lemmas live in `D3/Proofs/TetraMesh*.lean`), abou
   volume of the prism over the polygon of ring vertices — what is *not* formalised is that this
   prism is the convex hull of the vertex set), `cylinder_vertices_and_potentials`;
 * sphere / ellipsoid / capsule, structural: `sphere_structure`, `ellipsoid_structure`,
-  `icosphere_vertex_counts`, `capsule_structure_thm`.  PARTIAL: Σ volumes = hull volume for the
+  `icosphere_vertex_counts`, `capsule_structure_thm`, `capsule_cap_vertices_on_surface`
+  (all vertices but the two medial ones on the outward hemisphere of their cap sphere).  PARTIAL: Σ volumes = hull volume for the
   sphere, ellipsoid and capsule is not proved (oracle only).
 -/
 import D3.Proofs.TetraMeshBox
 import D3.Proofs.TetraMeshRound
 import D3.Proofs.TetraMeshCylinderTop
 import D3.Proofs.TetraMeshCapsule
+import D3.Proofs.TetraMeshCapsuleSurface
+import D3.Proofs.TetraMeshIcosphere
 
 namespace D3
 namespace C17
@@ -380,6 +383,128 @@ example : ∃ m, makeTetrahedralCapsule (1 : ℝ) 2 1 = .ok m := by
     omega
   simp only [h1, if_false]
   exact ⟨_, rfl⟩
+
+/-- **C17, capsule boundary.** For a radius `0 ≤ r`, every vertex of the mesh returned by the
+capsule factory except the first two (the ends of the medial segment), i.e. the two poles and all
+ring vertices of both caps, lies on the capsule surface: at distance exactly `r` from the centre
+`(0,0,h/2)` of the top cap with `z ≥ h/2`, or at distance exactly `r` from the centre
+`(0,0,−h/2)` of the bottom cap with `z ≤ −h/2` (`OnCapSurface`).  For `0 < r` the inequalities
+are strict (`OnCapSurfaceStrict`): the ring polar angles `½·np.pi − i·(½·np.pi/⌊n/2⌋)`, `i < ⌊n/2⌋`,
+are in `(0, π/2)` because the double `np.pi` is below π. -/
+theorem capsule_cap_vertices_on_surface (r h hint : ℝ) (m : Mesh ℝ)
+    (hm : makeTetrahedralCapsule r h hint = .ok m) :
+    (0 ≤ r → ∀ p ∈ m.vertices.drop 2, OnCapSurface r h p) ∧
+    (0 < r → ∀ p ∈ m.vertices.drop 2, OnCapSurfaceStrict r h p) :=
+  ⟨fun hr => TetraMesh.capsule_cap_vertices_on_surface r h hint hr m hm,
+   fun hr => TetraMesh.capsule_cap_vertices_on_surface_strict r h hint hr m hm⟩
+
+/-- the hypotheses are satisfiable (radius 1, height 2, hint 1 returns a mesh), and the mesh has
+more than two vertices, so the statement is not about an empty list -/
+example : ∃ m, makeTetrahedralCapsule (1 : ℝ) 2 1 = .ok m ∧ (0 : ℝ) < 1 ∧
+    (m.vertices.drop 2).length ≠ 0 := by
+  obtain ⟨n3, _⟩ := clipInt_bounds ((2 : ℝ) * piLit * 1 / 1)
+  unfold makeTetrahedralCapsule
+  rw [if_neg (by norm_num)]
+  unfold capsuleMeshN capsuleVertices
+  have h1 : ¬ (clipInt3_706 ((2 : ℝ) * piLit * 1 / 1) / 2 = 0 ∨ clipInt3_706 ((2 : ℝ) * piLit * 1 / 1) = 0) := by
+    omega
+  simp only [h1, if_false]
+  exact ⟨_, rfl, one_pos, by simp⟩
+
+/-! ## icosphere subdivision, every order: no edge midpoint is the zero vector
+
+`make_triangular_icosphere` stores the unnormalised midpoint `0.5 * (vertices[a] + vertices[b])`
+and divides every row by its norm once at the end, so the factory is defined iff no row is zero
+(and the cache creates exactly the allocated rows).  `geoIco order` is the subdivision on triangles
+of position vectors (same corner order as the python loop body, no index / cache bookkeeping). -/
+
+/-- **C17, icosphere subdivision step.** If the three pairwise dot products of the corners of a
+triangle are positive (`PosDots`: in particular no two corners are antipodal), the three edge
+midpoints `0.5·(p+q)` are non-zero and each of the four sub-triangles again has positive pairwise
+dot products. -/
+theorem icosphere_subdivision_step (t : GeoTri) (h : PosDots t) :
+    0 < V3.normSq (geoMid t.1 t.2.1) ∧ 0 < V3.normSq (geoMid t.2.1 t.2.2) ∧
+      0 < V3.normSq (geoMid t.2.2 t.1) ∧ ∀ s ∈ geoSubdivide t, PosDots s :=
+  ⟨geoMid_normSq_pos _ _ h.1, geoMid_normSq_pos _ _ h.2.1, geoMid_normSq_pos _ _ h.2.2,
+    geoSubdivide_posDots t h⟩
+
+example : PosDots ((⟨1, 0, 0⟩, ⟨1, 1, 0⟩, ⟨1, 0, 1⟩) : GeoTri) := by
+  simp only [PosDots, V3.dot_def]; norm_num
+
+/-- **C17, icosphere subdivision, all orders.** Starting from the 20 faces of the model's
+icosahedron (`icoVertices0`, `icoTriangles0`; base case: every pairwise dot product on a face equals
+the golden ratio), after any number of subdivision passes there are `20·4^order` triangles, every
+triangle has positive pairwise dot products of its corners, and the midpoint of each of its edges
+(the vertices the next pass creates) is not the zero vector. -/
+theorem icosphere_midpoints_nonzero_all_orders (order : Nat) :
+    (geoIco order).length = 20 * 4 ^ order ∧
+    ∀ t ∈ geoIco order, PosDots t ∧ 0 < V3.normSq (geoMid t.1 t.2.1) ∧
+      0 < V3.normSq (geoMid t.2.1 t.2.2) ∧ 0 < V3.normSq (geoMid t.2.2 t.1) :=
+  ⟨geoIco_length order, fun t ht =>
+    have h := geoIco_posDots order t ht
+    ⟨h, geoMid_normSq_pos _ _ h.1, geoMid_normSq_pos _ _ h.2.1, geoMid_normSq_pos _ _ h.2.2⟩⟩
+
+/-- the statement is about a non-empty list -/
+example : (geoIco 3).length = 1280 := by rw [geoIco_length]; norm_num
+
+/-- **C17, sphere factory defined, conditional on the cache bookkeeping (any order).** If the
+subdivision creates at most the allocated `10·4^order + 2` rows, the midpoint pass of the model
+returns exactly that many rows and each of them is non-zero, then `make_tetrahedral_sphere` returns
+a mesh for every positive radius (the final normalisation divides by no zero). -/
+theorem sphere_defined_of_nonzero_rows (r : ℝ) (hr : 0 < r) (order : Nat) (vs : List (V3 ℝ))
+    (hv : (icoTopology order).2.v ≤ icoVertexCount order)
+    (hm : icoMidpoints (icoVertices0 : List (V3 ℝ)) (icoTopology order).2.parents = .ok vs)
+    (hlen : vs.length = icoVertexCount order) (hpos : ∀ p ∈ vs, 0 < V3.normSq p) :
+    ∃ m, makeTetrahedralSphere r order = .ok m :=
+  sphere_defined_of_rows_pos r hr order vs hv hm hlen hpos
+
+/-- the hypotheses hold at order 0 -/
+example : (icoTopology 0).2.v ≤ icoVertexCount 0 ∧
+    icoMidpoints (icoVertices0 : List (V3 ℝ)) (icoTopology 0).2.parents = .ok icoVertices0 ∧
+    (icoVertices0 : List (V3 ℝ)).length = icoVertexCount 0 ∧
+    ∀ p ∈ (icoVertices0 : List (V3 ℝ)), 0 < V3.normSq p := by
+  refine ⟨by decide, rfl, rfl, ?_⟩
+  intro p hp
+  simp only [icoVertices0, List.mem_cons, List.not_mem_nil, or_false] at hp
+  have f2 : 0 ≤ (goldenF : ℝ) * goldenF := mul_self_nonneg _
+  rcases hp with rfl | rfl | rfl | rfl | rfl | rfl | rfl | rfl | rfl | rfl | rfl | rfl <;>
+    (simp only [V3.normSq_def]; nlinarith [f2])
+
+/-- **C17, cache key.** The key `floor((a+b)(a+b+1)/2) + min(a,b)` of the midpoint cache is
+injective on unordered pairs of vertex indices: two edges get the same key only if they are the same
+edge (so a cache hit always returns the midpoint of the requested edge). -/
+theorem cache_key_identifies_edge (a b c d : Nat) (h : cantorKey a b = cantorKey c d) :
+    (a = c ∧ b = d) ∨ (a = d ∧ b = c) := cantorKey_inj a b c d h
+
+example : cantorKey 11 5 = cantorKey 5 11 := by decide
+
+/-- **C17, icosphere index bookkeeping, all orders.** For every subdivision order the midpoint pass
+of the model reads only rows that already exist (no `IndexError`), returns exactly as many rows as
+the subdivision counted (`v`, the 12 icosahedron vertices plus one per created midpoint), and every
+index in every triangle is below that number. -/
+theorem icosphere_index_bookkeeping_all_orders (order : Nat) :
+    (∃ vs : List (V3 ℝ), icoMidpoints icoVertices0 (icoTopology order).2.parents = .ok vs ∧
+      vs.length = (icoTopology order).2.v) ∧
+    ∀ s ∈ (icoTopology order).1, s.1 < (icoTopology order).2.v ∧ s.2.1 < (icoTopology order).2.v ∧
+      s.2.2 < (icoTopology order).2.v :=
+  ⟨icoMidpoints_defined_all_orders order, (icoTopology_ok order).2⟩
+
+example : (icoTopology 2).1.length = 320 := by rw [icosphere_vertex_counts.1]; norm_num
+
+/-- **C17, sphere factory defined, conditional (any order).** If the subdivision creates exactly the
+allocated `10·4^order + 2` vertices and no row of the midpoint pass is the zero vector, then
+`make_tetrahedral_sphere` returns a mesh for every positive radius.  (The midpoint pass itself is
+defined at every order, `icosphere_index_bookkeeping_all_orders`.) -/
+theorem sphere_defined_of_count_and_nonzero_rows (r : ℝ) (hr : 0 < r) (order : Nat)
+    (hc : (icoTopology order).2.v = icoVertexCount order)
+    (hpos : ∀ vs : List (V3 ℝ),
+      icoMidpoints icoVertices0 (icoTopology order).2.parents = .ok vs → ∀ p ∈ vs, 0 < V3.normSq p) :
+    ∃ m, makeTetrahedralSphere r order = .ok m := by
+  obtain ⟨vs, hm, hl⟩ := icoMidpoints_defined_all_orders order
+  exact sphere_defined_of_rows_pos r hr order vs (le_of_eq hc) hm (hl.trans hc) (hpos vs hm)
+
+/-- the count hypothesis holds at order 2 (kernel evaluation) -/
+example : (icoTopology 2).2.v = icoVertexCount 2 := icosphere_vertex_counts.2.2.2.1
 
 end C17
 end D3
